@@ -394,7 +394,11 @@ func judgeLoose(k *run.K, label string, r geom.Geometry, d *exact.Decomp, m floa
 func operand(g *gen.G, kind int) geom.Geometry {
 	switch {
 	case kind < 7:
-		return g.Typed(gen.AllTypes[kind], 1)
+		x := g.Typed(gen.AllTypes[kind], 1)
+		if g.R.Chance(1, 3) { // empty members at random positions of Multi*/collections
+			x = gen.WithEmpties(g.R, x, 2)
+		}
+		return x
 	default:
 		return gen.EmptyOf(gen.AllTypes[g.R.Intn(7)], geom.DimXY)
 	}
